@@ -22,8 +22,13 @@ bookkeeping of MP4Tags.save (Model/Container/Mp4.lean) on a real file.
          `load` / `openSave` / `openDelete` / `saveTags` of the model (Props/C04_Mp4): MP4(fileobj), then
          save / add_tags+save / delete through it (savetags: MP4Tags.save into this file without loading it);
          mem=1: the file object is an io.BytesIO, mem=0: a real file; ilst = Atom.render(b"ilst", values)
+  mp4 op=m data=<hex> ilst=<hex> [pad=<default|n>] [pos=<n>] [B=<n>] [fail=<i>:<err>] [short=<i>:<k>] [cap=<n>] [leak=<n>]
+      -> ok|err <PyErr> data=<hex> pos=<n> log=<calls>
+         `saveEntryM` (Model/Container/Mp4M.lean): MP4Tags.save as a program over the file object, from the first call after
+         `Atoms(fileobj)` on, in a fault environment (call indices count from that call); pos = where the parse left the file
 -/
 import MutagenModel.Model.Container.Mp4
+import MutagenModel.Model.Container.Mp4M
 import Driver.Util
 import Driver.FlacC
 namespace Driver
@@ -84,6 +89,9 @@ def mp4Op (a : Args) : String :=
         let head := match r.1 with | none => "ok" | some e => s!"err {e.name}"
         let cov := covered f atoms R.parents off old ((new.length : Int) - old) (a.nat "n" 16)
         s!"{head} off={off} old={old} newlen={new.length} covered={if cov then 1 else 0} data={hexField r.2}"
+  | "m" =>
+    let s : FS := { data := a.bytes "data", pos := a.nat "pos" 0 }
+    showResult (saveEntryM (a.nat "B" 1048576) (a.bytes "ilst") (padOf a) (envOf a) s)
   | "c04" =>
     let f := a.bytes "data"
     let mem := a.nat "mem" 1 == 1
